@@ -222,12 +222,19 @@ def expand(prop, mod, hmod, tier, only=None):
         to = ob.get('timeout', (60, 300))
         timeout = to[1] if tier == 'thorough' else to[0]
         kn = sorted({e['class'] for e in known if e['obligation'] == ob['id'] and e['status'] == 'finding'})
-        for i, case in enumerate(cases):
-            tag = '%s_%s_%d' % (prop, ob['id'].replace('.', '_'), i)
-            path = os.path.join(wdir, 'ob_%s_%d.py' % (ob['id'].replace('.', '_'), i))
-            lines = gen_module(prop, mod, ob, case, kn, path, os.path.join(wdir, tag + '.ticks'), pre)
-            jobs.append(dict(ob=ob, case=tuple(case), path=path, lines=lines, timeout=timeout, known=kn,
-                             ticks=os.path.join(wdir, tag + '.ticks'), pre=pre))
+        splits = ob.get('splits') or [[]]
+        if tier == 'thorough':
+            splits = ob.get('splits_thorough') or splits
+        i = -1
+        for case in cases:
+            for sp in splits:
+                i += 1
+                tag = '%s_%s_%d' % (prop, ob['id'].replace('.', '_'), i)
+                path = os.path.join(wdir, 'ob_%s_%d.py' % (ob['id'].replace('.', '_'), i))
+                lines = gen_module(prop, mod, ob, case, kn, path, os.path.join(wdir, tag + '.ticks'),
+                                   list(pre) + list(sp))
+                jobs.append(dict(ob=ob, case=tuple(case), path=path, lines=lines, timeout=timeout, known=kn,
+                                 ticks=os.path.join(wdir, tag + '.ticks'), pre=list(pre) + list(sp)))
     return jobs, known
 
 
@@ -316,7 +323,7 @@ def main(prop, mod, tier='quick', only=None, extra_evidence=None, pre_results=No
                 else:
                     status = 'violation'
                     os.makedirs(os.path.join(REPLAYS, prop), exist_ok=True)
-                    rpath = os.path.join(REPLAYS, prop, '%s_%s.json' % (ob['id'], abs(hash(j['case'])) % 10 ** 8))
+                    rpath = os.path.join(REPLAYS, prop, '%s_%s.json' % (ob['id'], os.path.basename(j['path'])[3:-3]))
                     json.dump({'property': prop, 'obligation': ob['id'], 'module': mod, 'impl': ob['impl'],
                                'case': list(j['case']), 'args': [args[n] for n in names], 'arg_names': names,
                                'reason': reason, 'crosshair': msg,
